@@ -28,6 +28,17 @@ class Term(object):
 
 
 AIG = None      # set by irsym.aig on import (bit-level mode)
+LIMB = None     # set by irsym.limb on import (polynomial mode)
+
+
+def _lv(*xs):
+    if LIMB is None:
+        return False
+    for x in xs:
+        if isinstance(x, LIMB.LV):
+            return True
+    return False
+
 MODE = "term"   # "term" (word-level DAG + z3) or "aig" (bit-level XOR-AND graph)
 
 
@@ -108,6 +119,8 @@ def binop(op, a, b, w):
         raise ValueError(op)
     if _av(a, b):
         return AIG.binop(op, a, b, w)
+    if _lv(a, b):
+        return LIMB.binop(op, a, b, w)
     # local simplifications
     if op in ("and", "mul"):
         if (is_c(a) and a == 0) or (is_c(b) and b == 0):
@@ -175,6 +188,8 @@ def zext(a, w_from, w_to):
         return a
     if _av(a):
         return AIG.zext(a, w_from, w_to)
+    if _lv(a):
+        return LIMB.zext(a, w_from, w_to)
     return mk("zext", (a,), w_to, aux=w_from)
 
 
@@ -195,6 +210,8 @@ def extract(a, hi, lo):
         return a
     if _av(a):
         return AIG.extract(a, hi, lo)
+    if _lv(a):
+        return LIMB.extract(a, hi, lo)
     if a.op == "zext" and hi < a.aux:
         return extract(a.args[0], hi, lo)
     if a.op == "zext" and lo >= a.aux:
@@ -221,6 +238,8 @@ def concat(hi, lo, whi, wlo):
         return (hi << wlo) | lo
     if _av(hi, lo):
         return AIG.concat(hi, lo, whi, wlo)
+    if _lv(hi, lo):
+        return LIMB.concat(hi, lo, whi, wlo)
     if is_c(hi) and hi == 0 and not is_c(lo):
         return zext(lo, wlo, whi + wlo)
     # re-fuse adjacent extracts of the same node
